@@ -39,6 +39,9 @@ def run(ctx):
     lib_kind.takeset_atomic(ctx, P)
     from . import lib_kind2
     lib_kind2.guard_nan(ctx, P)
+    from . import lib_kind3
+    lib_kind3.module_owner_refs(ctx, P)
+    lib_kind3.error_codes(ctx, P)
     lib_kind.dict_atomic(ctx, P)
     lib_stats.early_exits(ctx, P)
     from sa.schema import load_schemas
